@@ -59,6 +59,10 @@ var nameKinds = []func(i int) string{
 	func(i int) string { return fmt.Sprintf("-%d", int64(4294967296)+int64(i)) },         // below -2^32
 	func(i int) string { return fmt.Sprintf("%d", int64(9223372036854775807)-int64(i)) }, // top of int64
 	func(i int) string { return fmt.Sprintf("2026092700%d", i) },                         // date-like id
+	// blanks are part of a name (non-numeric, so @id is 0 whether or not an implementation trims first)
+	func(i int) string { return fmt.Sprintf(" e%d ", i) },
+	func(i int) string { return fmt.Sprintf("t%d  ", i) },
+	func(i int) string { return fmt.Sprintf("  s %d", i) },
 	func(i int) string { return fmt.Sprintf("e%d", i) },
 	func(i int) string { return fmt.Sprintf("e%d", i) },
 }
